@@ -93,7 +93,7 @@ def func(qualname):
 
 
 def equiv_unit(prop, name, qualname, specname, make_inputs, kind=None, spec_args=None, prop_level=True, functions=None,
-               requires=None, max_paths=20000):
+               requires=None, max_paths=20000, proves=None):
     """unit: for all inputs built by make_inputs(ctx) -> list of args: outcome(code) agrees with outcome(spec)"""
     def fn(ip, ctx):
         args = make_inputs(ctx)
@@ -114,7 +114,7 @@ def equiv_unit(prop, name, qualname, specname, make_inputs, kind=None, spec_args
             return None
         return {"case": {"prop": prop, "kind": kind, "inputs": {k: concretise(v, model) for k, v in ctx.inputs.items()}},
                 "expect": sym_outcome(ctx._code_outcome, model, ctx)}
-    return Unit(name, prop, fn, functions=functions or [qualname], witness=witness, max_paths=max_paths)
+    return Unit(name, prop, fn, functions=functions or [qualname], witness=witness, max_paths=max_paths, proves=proves)
 
 
 def hex_or_not_str(ctx, name, minlen=0, maxlen=None):
